@@ -1,6 +1,6 @@
 (* C42 — property theorems only.  Each is closed by `exact <lemma>` and followed by Print Assumptions. *)
 From Coq Require Import List NArith Bool Arith.
-From Verif.C42 Require Import Model Spec Proofs ProofsApply ProofsFinal ProofsIds ProofsSpec ProofsPin Witness.
+From Verif.C42 Require Import Model Spec Proofs ProofsApply ProofsFinal ProofsIds ProofsSpec ProofsPin ProofsMaglev Witness.
 Import ListNotations.
 Open Scope N_scope.
 
@@ -193,3 +193,37 @@ Theorem c42_final_exact_witness_repaired :
          /\ state_wf w_npips w_final && final_exactb w_npips w_final (fst d') (snd d') = true.
 Proof. exact final_exact_witness_repaired. Qed.
 Print Assumptions c42_final_exact_witness_repaired.
+
+(* MAGLEV LUT MAP, MID-UPDATE.  A frontend flagged maglev drops every packet whose LUT entry is missing, so the
+   analogue of `consistent` is mg_consistent: every flagged frontend with backends finds all lut entries of its id.
+   (a) what the syncer wants to write is maglev-consistent, for any consistent-hash table lutf (explicit parameter); *)
+Theorem c42_maglev_desired_consistent : forall npips lut lutf us,
+  mg_consistent lut (desired_fe npips us) (desired_mg lut lutf us).
+Proof. exact desired_mg_consistent. Qed.
+Print Assumptions c42_maglev_desired_consistent.
+
+(* (b) the order  frontend deletions ; LUT updates ; frontend updates ; LUT deletions  (the repaired tree,
+   fixes/C42-maglev-lut-before-frontend-updates-deletions-after.patch) keeps it after EACH single write, for every
+   order inside the phases and every set of failing writes.  Partial: stated on the maglev view of the frontend map
+   (the four-phase model run_phases instantiated with the LUT map as second map), not woven into exec_apply; the
+   implementation is checked after every recorded write of all three maps by the oracle replay3_ok. *)
+Theorem c42_maglev_every_write_consistent_partial : forall npips lut lutf us fF fB fe mg tr d' err,
+  ukeys fe -> mg_consistent lut fe mg ->
+  run_phases fF fB (mgview lut (desired_fe npips us)) (desired_mg lut lutf us) (mgview lut fe, mg) tr = Some (d', err) ->
+  Forall (fun s => consistent (fst s) (snd s)) (states_after (mgview lut fe, mg) tr)
+  /\ consistent (fst d') (snd d')
+  /\ (err = false -> (forall k, lookup fkey_eqb (fst d') k = lookup fkey_eqb (mgview lut (desired_fe npips us)) k)
+                      /\ (forall k, lookup pair_eqb (snd d') k = lookup pair_eqb (desired_mg lut lutf us) k)).
+Proof. exact maglev_repaired_order. Qed.
+Print Assumptions c42_maglev_every_write_consistent_partial.
+
+(* (c) the pinned order (bpfMaglevEps.ApplyAllChanges, i.e. LUT deletions AND updates, before the frontend updates)
+   cannot guarantee it: when the annotation is removed (or the last ready endpoint goes, or the id changes) the first
+   LUT deletion leaves a still-flagged frontend without its table.  FINDING, shown on the real Syncer by scripted
+   history 3 and by random histories (tag maglev-midupdate). *)
+Theorem c42_maglev_pinned_order_refuted :
+  let fe0 := [(FK 174063617 80 6, FV 0 2 1 0 8)] in
+  let mg0 := [((0, 0), (167837953, 8000)); ((0, 1), (167837697, 8000))] in
+  mg_consistentb 2 fe0 mg0 = true /\ mg_consistentb 2 fe0 (del pair_eqb (0, 0) mg0) = false.
+Proof. exact maglev_pinned_order_witness. Qed.
+Print Assumptions c42_maglev_pinned_order_refuted.
